@@ -173,11 +173,13 @@ let () = Reg.register "c29.look" (fun inp out ->
     (L model, judge runs tok_offs)
   | _ -> failwith "c29.look")
 
-(* the shipped js parser: oracle only (its tables are not run through the model) *)
-let () = Reg.register "c29.js" (fun inp out ->
+(* the shipped js, tm and test parsers: oracle only (their tables are not run through the model) *)
+let shipped inp out =
   match lst inp with
-  | [_; offs] ->
+  | _ :: offs :: _ ->
     let tok_offs = Stdlib.Array.of_list (get_list get_int offs) in
     let runs = Stdlib.List.map parse_run (lst out) in
     (out, judge runs tok_offs)
-  | _ -> failwith "c29.js")
+  | _ -> failwith "c29.shipped"
+let () = Reg.register "c29.js" shipped
+let () = Reg.register "c29.shipped" shipped
